@@ -185,7 +185,7 @@ fn answer_of(code: u8) -> Answer {
 /// same, with a message that varies per step (the io::ErrorKind of an IO answer is derived from the message)
 fn answer_of_step(code: u8, salt: u8) -> Answer {
     match answer_of(code) {
-        Answer::SigErr(k, m) => Answer::SigErr(k, format!("{} ({})", m, salt % 16)),
+        Answer::SigErr(k, m) => Answer::SigErr(k, format!("{} ({})", m, salt % 24)),
         // the concrete type of a foreign error follows the number as well
         Answer::Foreign(m) => Answer::Foreign(format!("{} ({})", m, salt % 8)),
         other => other,
@@ -283,8 +283,10 @@ pub fn check_history(h: &History, cc: &mut CaseCtx) -> CheckResult {
                     let script_err = case.prov.ready_err.clone().unwrap_or(case.prov.answer.clone());
                     match script_err {
                         Answer::SigErr(k, m) => {
-                            if e.kind != Some(k) || e.msg != m {
-                                return Err(Failure::new("provider-error-altered", ctxt(format!("provider said {:?} {:?}, caller got {:?} {:?}", k, m, e.kind, e.msg))));
+                            // unchanged: the caller sees what a freshly made copy of the provider's error looks like
+                            let want = exec::err_info(&exec::make_sig_err(k, &m));
+                            if e.kind != want.kind || e.msg != want.msg || e.code != want.code || e.status != want.status || e.debug != want.debug {
+                                return Err(Failure::new("provider-error-altered", ctxt(format!("provider said {:?} {:?} ({}), caller got {:?} {:?} ({})", k, m, want.debug, e.kind, e.msg, e.debug))));
                             }
                         }
                         Answer::Foreign(_) => {
